@@ -127,10 +127,12 @@ CLAIMED = {
                 'separate_rules returns exactly the segments of the text that end at a rule-ending period (a period at bracket depth 0, outside quotes, that is not a decimal point), each containing no other such period, '
                 'their concatenation being a prefix of the text whose remainder contains none (spec segmented / rule_end), and fails exactly when brackets are unbalanced; '
                 'strip_comments returns the trimmed text before the first #, % or // outside brackets; check_last_char accepts exactly the documented continuation characters. '
-                'PARTIAL: the file-reading glue (io::Lines iteration, joining of lines) and parse_rule are outside the proof.',
-        'note': 'Trusted: str_to_chars!/chars_to_string! as functions (R5), str::trim as a contiguous sub-sequence, char::is_ascii_digit, String::push (T3); unmatched_bracket assumed (Verus crashes on its body). i32 depth counters: inputs below 2^31 characters.',
+                'read_facts_and_rules (unit loader; rule R14 writes its `for line in lines` as loop / next()): the file is rejected if it cannot be opened or a kept line ends in anything but - , . = ; - otherwise the text handed to separate_rules '
+                'consists of the kept lines (comments stripped, empty ones dropped) in order, separated by white space (a line break separates words), and the result is that text\'s segmentation with each rule trimmed. '
+                'PARTIAL: load_kb_from_file (parse_rule on each segment) is outside the proof.',
+        'note': 'Trusted: str_to_chars!/chars_to_string! as functions (R5), str::trim as a contiguous sub-sequence, char::is_ascii_digit, String::push (T3); io::Lines::next / line_reader yield the lines of the named file in order (assumed specification, T3); `stripped` is defined as what the pure function strip_comments returns; unmatched_bracket assumed (Verus crashes on its body). i32 depth counters: files below 2^31 characters.',
         'technique': 'contract-based deductive verification (Verus) of extracted real code',
-        'design_ref': 'DESIGN.md 5/C21',
+        'design_ref': 'DESIGN.md 5/C21 and 8.13',
     },
     'C22': {
         'text': "Kani (CBMC) harnesses on the real crate, sequential, complete (loop-free or fully unwound, full-domain scalars): from an ARBITRARY prior value of the two cross-query globals (stop flag, id counter) "
